@@ -9,6 +9,8 @@ open TsVerif TsVerif.C02 TsVerif.C06 TsGen
 
 structure St where
   langs : Std.HashMap String Lang := {}
+  /-- language-level premise of `child_by_field_id_spec_partial`, evaluated once per language dump -/
+  sorted : Std.HashMap String Bool := {}
   defId : String := ""
   defLang : Lang := {}
   id : String := ""
@@ -152,19 +154,41 @@ def finish (s : St) : String :=
             let fl := (c.ft.descendantForPoints 0 sp ep (!anon)).map fun j => (c.ft.node j).info.id
             if fl != some exp.id then pflat := pflat + 1
       return (nchk, nbad, nflat, pchk, pbad, pflat)
+    -- child_by_field_id_spec_partial for every entry and every field of the language: premise cbfOK;
+    -- conclusion port = cbfSpec; cbfSpec = FT.childByField
+    let cbf := Id.run do
+      let mut chk := 0
+      let mut out := 0
+      let mut bad := 0
+      let mut flat := 0
+      if lang.fieldCount > 0 then
+        for h : k in [0:c.ft.size] do
+          let f := c.ft[k]'h.2.1
+          if f.kids.isEmpty then continue
+          let i := f.info
+          let self : NodeRef := { t := i.raw, alias := i.alias, id := i.id, start := i.start }
+          for fid in [1:lang.fieldCount + 1] do
+            if !(cbfOK lang fid self.t) then out := out + 1
+            else
+              let exp := (cbfSpec lang fid self.t).map fun x => (x.1.data, x.2)
+              let got := (childByFieldIdPort lang (self.t.size + 1) self fid).map fun r => (r.t.data, r.alias)
+              if decide (got = exp) then chk := chk + 1 else bad := bad + 1
+              let fl := (c.ft.childByField k fid).map fun j => ((c.ft.node j).info.raw.data, (c.ft.node j).info.alias)
+              if decide (fl = exp) then pure () else flat := flat + 1
+      return (chk, out, bad, flat)
     let psFlatBad := sh.prevs.foldl (init := 0) fun n (did, exp) =>
       match c.byId.get? did with
       | some j =>
         let flat := (c.ft.prevSibling j false).map fun i => ((c.ft.node i).info.raw.data, (c.ft.node i).info.alias)
         if decide (flat = exp) then n else n + 1
       | none => n + 1
-    s!"{s.id} corr={r.corrFails.render} judge={r.fails.render} asked={r.asked} ported={r.portCompared} vis={c.ft.size} raw={js.rawNodes} fanout={s.fanout} hiddenvis={js.hiddenWithVisible} alias={js.aliases} extra={js.extras} err={js.errors} missing={js.missing} zerowidth={js.zeroWidth} multiline={js.multiline} fields={fields} sexpok={if (sexpOKKids lang d.root.kids d.root.data.productionId 0 || hasHiddenMissing lang d.root 0) && !(lang.symMeta 0).visible then 1 else 0} stackbad={r.stackBad} anonleafok={if anonLeafOKKids lang d.root.kids d.root.data.productionId 0 then 1 else 0} hiddenextraok={if hiddenExtraOKKids lang d.root.kids d.root.data.productionId 0 then 1 else 0} hiddenmissing={if hasHiddenMissing lang d.root 0 then 1 else 0} parchk={ph.checked} parzw={ph.zeroWidth} parbad={ph.bad} parflat={flatBad} nschk={sh.checked} nsout={sh.outside} nsbad={sh.bad} nsflat={nsFlatBad} pschk={sh.pchecked} psout={sh.poutside} psbad={sh.pbad} psflat={psFlatBad} fcbchk={fcb.1} fcbout={fcb.2.1} fcbbad={fcb.2.2.1} fcbflat={fcb.2.2.2} dfrchk={dfr.1} dfrbad={dfr.2.1} dfrflat={dfr.2.2} nfcbchk={nfcb.1} nfcbout={nfcb.2.1} nfcbbad={nfcb.2.2.1} nfcbflat={nfcb.2.2.2} ndfrchk={vdfr.1} ndfrbad={vdfr.2.1} ndfrflat={vdfr.2.2.1} pdfrchk={vdfr.2.2.2.1} pdfrbad={vdfr.2.2.2.2.1} pdfrflat={vdfr.2.2.2.2.2} znschk={sh.zchecked} znsout={sh.zoutside} znsbad={sh.zbad} zpschk={sh.zpchecked} zpsout={sh.zpoutside} zpsbad={sh.zpbad} pgenbad={sh.pgenbad} znsoutpar={sh.zwhy.1} znsoutfollow={sh.zwhy.2.1} znsoutzw={sh.zwhy.2.2.1} zpsoutpar={sh.zwhy.2.2.2.1} zpsoutid={sh.zwhy.2.2.2.2.1} zpsoutzw={sh.zwhy.2.2.2.2.2} kind={s.kind}"
+    s!"{s.id} corr={r.corrFails.render} judge={r.fails.render} asked={r.asked} ported={r.portCompared} vis={c.ft.size} raw={js.rawNodes} fanout={s.fanout} hiddenvis={js.hiddenWithVisible} alias={js.aliases} extra={js.extras} err={js.errors} missing={js.missing} zerowidth={js.zeroWidth} multiline={js.multiline} fields={fields} sexpok={if (sexpOKKids lang d.root.kids d.root.data.productionId 0 || hasHiddenMissing lang d.root 0) && !(lang.symMeta 0).visible then 1 else 0} stackbad={r.stackBad} anonleafok={if anonLeafOKKids lang d.root.kids d.root.data.productionId 0 then 1 else 0} hiddenextraok={if hiddenExtraOKKids lang d.root.kids d.root.data.productionId 0 then 1 else 0} hiddenmissing={if hasHiddenMissing lang d.root 0 then 1 else 0} parchk={ph.checked} parzw={ph.zeroWidth} parbad={ph.bad} parflat={flatBad} nschk={sh.checked} nsout={sh.outside} nsbad={sh.bad} nsflat={nsFlatBad} pschk={sh.pchecked} psout={sh.poutside} psbad={sh.pbad} psflat={psFlatBad} fcbchk={fcb.1} fcbout={fcb.2.1} fcbbad={fcb.2.2.1} fcbflat={fcb.2.2.2} dfrchk={dfr.1} dfrbad={dfr.2.1} dfrflat={dfr.2.2} nfcbchk={nfcb.1} nfcbout={nfcb.2.1} nfcbbad={nfcb.2.2.1} nfcbflat={nfcb.2.2.2} ndfrchk={vdfr.1} ndfrbad={vdfr.2.1} ndfrflat={vdfr.2.2.1} pdfrchk={vdfr.2.2.2.1} pdfrbad={vdfr.2.2.2.2.1} pdfrflat={vdfr.2.2.2.2.2} cbfchk={cbf.1} cbfout={cbf.2.1} cbfbad={cbf.2.2.1} cbfflat={cbf.2.2.2} fmsorted={if (s.sorted.get? s.lang).getD false then 1 else 0} znschk={sh.zchecked} znsout={sh.zoutside} znsbad={sh.zbad} zpschk={sh.zpchecked} zpsout={sh.zpoutside} zpsbad={sh.zpbad} pgenbad={sh.pgenbad} znsoutpar={sh.zwhy.1} znsoutfollow={sh.zwhy.2.1} znsoutzw={sh.zwhy.2.2.1} zpsoutpar={sh.zwhy.2.2.2.1} zpsoutid={sh.zwhy.2.2.2.2.1} zpsoutzw={sh.zwhy.2.2.2.2.2} kind={s.kind}"
   | _, _, _ => s!"{s.id} corr=BADINPUT judge=BADINPUT asked=0"
 
 def step (s : St) (line : String) : IO St := do
   if s.mode == 1 then
     if line == "enddeflang" then
-      return { s with mode := 0, langs := s.langs.insert s.defId s.defLang }
+      return { s with mode := 0, langs := s.langs.insert s.defId s.defLang, sorted := s.sorted.insert s.defId (fieldMapsSorted s.defLang) }
     else return { s with defLang := s.defLang.addLine line }
   if s.mode == 2 then
     if line == "end" then return { s with mode := 0 } else return { s with dump := s.dump.push line }
@@ -185,7 +209,7 @@ def step (s : St) (line : String) : IO St := do
     | none => return s
   match line.splitOn " " with
   | ["deflang", id] => return { s with mode := 1, defId := id, defLang := {} }
-  | ["case", id] => return { langs := s.langs, id := id }
+  | ["case", id] => return { langs := s.langs, sorted := s.sorted, id := id }
   | ["lang", l] => return { s with lang := l }
   | ["kind", k] => return { s with kind := k }
   | ["text", h] => return { s with text := (unhexBytes h).toArray }
